@@ -1287,3 +1287,85 @@ def explore(ctx, jobs, procs=14):
 
 def prog_key(prog):
     return repr(prog)
+
+
+# ---------------------------------------------------------------------------------------------
+# product-tree sweep: mpc.prod / mpc.all over lists of EVERY length 1..10 with mixed integrality patterns
+# ---------------------------------------------------------------------------------------------
+PROD_FRACS = [0.3, 0.7, 1.1, -0.9, 1.3, -0.7, 0.9, 1.7, -1.1, 0.6]
+PROD_INTS = [1, -1, 1, 2, 1, -1, 3, 1, 1, -2]
+
+
+def prod_program(rng, lf, n, pattern):
+    """pattern: n booleans (True = integral input).  Inputs chosen so that the product stays in range."""
+    l, f = lf
+    hi = Fr(1 << (l - 1), 1 << f)
+    for attempt in range(40):
+        prog, refs = [], []
+        for k in range(n):
+            if pattern[k]:
+                v = rng.choice(PROD_INTS if attempt < 20 else [1, -1, 1])
+                if rng.random() < 0.3:
+                    prog.append(['cfloat', [], fhex(float(v))])     # integer-valued float: flag by is_integer
+                else:
+                    prog.append(['cint', [], v])
+                refs.append(Ref(Fr(v)))
+            else:
+                x = rng.choice(PROD_FRACS) if rng.random() < 0.7 else round(rng.uniform(-1.6, 1.6), 3)
+                if x == 0 or float(x).is_integer():
+                    x = 0.3
+                prog.append(['cfloat', [], fhex(x)])
+                refs.append(Ref(Fr(round_half_even(Fr(x) * (1 << f)), 1 << f)))
+        ins = ['prod', [list(range(n))], None]
+        out = ref_step(ins, [refs], f)
+        u = Fr(1, 1 << f)
+        # every partial product of the tree must fit as well: bound by the product of magnitudes
+        mag = Fr(1)
+        for r in refs:
+            mag *= max(abs(r.R), Fr(1))
+        if out[0].R is not None and mag + out[0].E * u < hi:
+            prog.append(ins)
+            return prog
+    return None
+
+
+def all_program(rng, n):
+    bits = [rng.choice([0, 1, 1, 1]) for _ in range(n)]
+    if rng.random() < 0.3:
+        bits = [1] * n
+    prog = [['cint', [], b] for b in bits]
+    prog.append(['all', [list(range(n))], None])
+    return prog
+
+
+def prod_sweep_jobs(ctx, tag, forced=True):
+    """jobs for explore(): quick = all patterns for n <= 6 on one party + samples elsewhere; thorough = all
+    patterns for n <= 7 on three configurations"""
+    import itertools
+    rng = ctx.subrng('prodsweep', tag)
+    jobs = []
+    full_n = 7 if ctx.thorough else 6
+    cfgs_full = CFGS_QUICK if ctx.thorough else CFGS_QUICK[:1]
+    types_full = [(16, 8), (32, 16)] if not ctx.thorough else [(16, 8), (32, 16), (64, 32)]
+    k = 0
+    for cfg in cfgs_full:
+        for n in range(1, full_n + 1):
+            for pat in itertools.product([True, False], repeat=n):
+                lf = types_full[k % len(types_full)]
+                k += 1
+                prog = prod_program(rng, lf, n, pat)
+                if prog is not None:
+                    jobs.append((f'{tag}:full:{cfg}:{lf}:{n}:{k}', cfg, lf, ctx.seed, {'prog': prog, 'forced': forced}))
+    for cfg in CFGS_QUICK:
+        for n in range(1, 11):
+            for _ in range(ctx.scale(2, 10)):
+                lf = TYPES[k % len(TYPES)]
+                k += 1
+                pat = [rng.random() < 0.5 for _ in range(n)]
+                prog = prod_program(rng, lf, n, pat)
+                if prog is not None:
+                    jobs.append((f'{tag}:smp:{cfg}:{lf}:{n}:{k}', cfg, lf, ctx.seed, {'prog': prog, 'forced': forced}))
+            lf = [(16, 8), (64, 32), (8, 4)][n % 3]
+            k += 1
+            jobs.append((f'{tag}:all:{cfg}:{lf}:{n}:{k}', cfg, lf, ctx.seed, {'prog': all_program(rng, n), 'forced': False}))
+    return jobs
